@@ -227,7 +227,9 @@ class LocalShare:
         path = self.__buildPath(buildId)
         workspace = os.path.abspath(workspace)
         try:
-            with OpenLocked(os.path.join(self.__path, "repo.json"), "r", False):
+            # The repository file might not exist yet if the very first
+            # package is just being installed. Create it in this case.
+            with OpenLocked(os.path.join(self.__path, "repo.json"), "a", False):
                 pkgMetaFile = os.path.join(path, "pkg.json")
                 with OpenLocked(pkgMetaFile, "r+", True) as f:
                     if not os.path.isdir(path):
